@@ -427,6 +427,12 @@ func genMix(prop string, seed uint64, run int, o mixOpts) *Scenario {
 		// the current directory itself, spelled in ways that clean to "."
 		dirs = append(dirs, ".")
 		g.kind["."] = 'd'
+		if sc.Cfg.Lagfree && sc.Cfg.QueueLimit == 0 && g.chance(0.6) {
+			// ... and removed as the last step of a sequential history (the run's working
+			// directory is a sub-directory of the scratch root, which the harness leaves
+			// first; nothing relative is resolved after that)
+			sc.Cfg.Cwd = "cw"
+		}
 	}
 	buf := bufSizes[g.r.Intn(len(bufSizes))]
 	setup = append(setup, Op{K: OpNewWatcher, N: buf})
@@ -470,6 +476,9 @@ func genMix(prop string, seed uint64, run int, o mixOpts) *Scenario {
 			} else {
 				ops = append(ops, g.worldOp(dirs, o.shapes, world)...)
 			}
+		}
+		if sc.Cfg.Cwd != "" {
+			ops = append(ops, Op{K: OpLeaveRm, P: sc.Cfg.Cwd})
 		}
 		sc.Tasks = []TaskScript{{Name: "seq", Role: "world", Ops: ops}}
 		return sc
